@@ -2468,7 +2468,7 @@ class Convex:
     def __neg__(self):
 
         return Convex(self.affine_in, -self.affine_out, self.xtype, -self.sign,
-                      self.multiplier,
+                      self.multiplier, self.sum_axis,
                       params=self.params)
 
     def __add__(self, other):
@@ -2491,7 +2491,7 @@ class Convex:
 
         new_convex = Convex(affine_in, affine_out,
                             self.xtype, self.sign, self.multiplier,
-                            params=self.params)
+                            self.sum_axis, params=self.params)
 
         return new_convex
 
@@ -2521,7 +2521,7 @@ class Convex:
 
         return Convex(self.affine_in, other * self.affine_out,
                       self.xtype, np.sign(other)*self.sign, multiplier,
-                      params=self.params)
+                      self.sum_axis, params=self.params)
 
     def __rmul__(self, other):
 
@@ -2534,7 +2534,8 @@ class Convex:
             raise ValueError('Nonconvex constraints.')
 
         return CvxConstr(left.model, left.affine_in, left.affine_out,
-                         left.multiplier, left.xtype, params=left.params)
+                         left.multiplier, left.xtype, params=left.params,
+                         sum_axis=left.sum_axis)
 
     def __ge__(self, other):
 
@@ -2543,7 +2544,8 @@ class Convex:
             raise ValueError('Nonconvex constraints.')
 
         return CvxConstr(right.model, right.affine_in, right.affine_out,
-                         right.multiplier, right.xtype, params=right.params)
+                         right.multiplier, right.xtype, params=right.params,
+                         sum_axis=right.sum_axis)
 
     def __eq__(self, other):
 
@@ -2589,9 +2591,15 @@ class Convex:
             elif self.xtype == 'Q':
                 output = self.multiplier**2*self.sign*(value_in**2).sum() + value_out
             elif self.xtype == 'X':
-                output = self.multiplier*self.sign*np.exp(value_in) + value_out
+                value_x = np.exp(value_in)
+                if self.sum_axis is not False:
+                    value_x = value_x.sum(axis=self.sum_axis)
+                output = self.multiplier*self.sign*value_x + value_out
             elif self.xtype == 'L':
-                output = - self.multiplier*self.sign*np.log(value_in) + value_out
+                value_l = np.log(value_in)
+                if self.sum_axis is not False:
+                    value_l = value_l.sum(axis=self.sum_axis)
+                output = - self.multiplier*self.sign*value_l + value_out
             elif self.xtype == 'F':
                 output = self.multiplier*self.sign*np.log(1+np.exp(value_in)) + value_out
             elif self.xtype == 'P':
@@ -3094,7 +3102,8 @@ class CvxConstr:
     The CvxConstr class creates an object of convex constraints.
     """
 
-    def __init__(self, model, affine_in, affine_out, multiplier, xtype, params=None):
+    def __init__(self, model, affine_in, affine_out, multiplier, xtype,
+                 params=None, sum_axis=False):
 
         self.model = model
         self.affine_in = affine_in
@@ -3102,6 +3111,7 @@ class CvxConstr:
         self.multiplier = multiplier
         self.xtype = xtype
         self.params = params
+        self.sum_axis = sum_axis
 
     def __repr__(self):
 
